@@ -850,7 +850,9 @@ pub fn run(ctx: &Ctx) -> Outcome {
                 }
                 7 => case_date_signed(&mut loc, &x, a.day, random_delta(&mut rng), rng.chance(1, 2)),
                 8 => {
-                    let b = gen::random_rdt(&mut rng, &cat_days);
+                    // independent pairs, and pairs less than two seconds apart (order within one second)
+                    let near = RDt::from_ns((a.ns() + rng.range(-2_000_000_000, 2_000_000_000) as i128).clamp(ri::min_ns(), ri::max_ns()));
+                    let b = if rng.chance(1, 3) { near } else { gen::random_rdt(&mut rng, &cat_days) };
                     case_distance(&mut loc, &x, a, b, Some((gen::random_offset(&mut rng, &cat_off), gen::random_offset(&mut rng, &cat_off))));
                 }
                 _ => {
